@@ -13,7 +13,7 @@ import (
 )
 
 var (
-	regFlags         = regexp.MustCompile(`flags=\(([^)]+)\)`)
+	regFlags         = regexp.MustCompile(`flags[\t ]*=[\t ]*\(([^)]+)\)`)
 	regProfileHeader = regexp.MustCompile(` {\n`)
 
 	// A line that opens a block, comments left out; among them the ones that
